@@ -10,10 +10,9 @@ import (
 
 // ---- reverse post-order per function ----
 
-var rpoCache = map[*ssa.Function]map[*ssa.BasicBlock]int{}
-
-func rpoIndex(b *ssa.BasicBlock) int {
+func (e *Engine) rpoIndex(b *ssa.BasicBlock) int {
 	fn := b.Parent()
+	rpoCache := e.rpoCache
 	m, ok := rpoCache[fn]
 	if !ok {
 		m = map[*ssa.BasicBlock]int{}
@@ -270,11 +269,9 @@ func (e *Engine) shapeSig(st *State) string {
 	return st.sig
 }
 
-var joinFailWhy = map[string]int{}
-
-func jf(why string) (*State, bool) { joinFailWhy[why]++; return nil, false }
 
 func (e *Engine) mergeAtJoin(a, b *State) (*State, bool) {
+	jf := func(why string) (*State, bool) { e.joinFailWhy[why]++; return nil, false }
 	if len(a.frames) != len(b.frames) {
 		return nil, false
 	}
@@ -362,9 +359,62 @@ func (e *Engine) mergeAtJoin(a, b *State) (*State, bool) {
 			mf.visits[blk] = n
 		}
 	}
+	mergeMeta(m, a, condA, b, condB)
 	m.pc = append(append([]*Term(nil), a.pc[:k]...), Or(condA, condB))
 	if m.pc[len(m.pc)-1].IsTrue() {
 		m.pc = m.pc[:len(m.pc)-1]
 	}
 	return m, true
+}
+
+// mergeMeta merges the per-path bookkeeping (overflow obligations, known-finding signatures, observations).
+func mergeMeta(m, a *State, condA *Term, b *State, condB *Term) {
+	m.ovf = nil
+	if len(a.ovf) > 0 {
+		m.ovf = append(m.ovf, Implies(condA, And(a.ovf...)))
+	}
+	if len(b.ovf) > 0 {
+		m.ovf = append(m.ovf, Implies(condB, And(b.ovf...)))
+	}
+	if a.sigs != nil || b.sigs != nil {
+		ns := map[string]*Term{}
+		for n, sa := range a.sigs {
+			if sb, ok := b.sigs[n]; ok {
+				if sa == sb {
+					ns[n] = sa
+				} else {
+					ns[n] = Or(And(condA, sa), And(condB, sb))
+				}
+			} else {
+				ns[n] = And(condA, sa)
+			}
+		}
+		for n, sb := range b.sigs {
+			if _, ok := a.sigs[n]; !ok {
+				ns[n] = And(condB, sb)
+			}
+		}
+		m.sigs = ns
+	}
+	same := len(a.obs) == len(b.obs)
+	var nobs []obsEntry
+	if same {
+		for i := range a.obs {
+			if a.obs[i].Tag != b.obs[i].Tag {
+				same = false
+				break
+			}
+			mv, ok := mergeValue(condA, a.obs[i].V, b.obs[i].V)
+			if !ok {
+				same = false
+				break
+			}
+			nobs = append(nobs, obsEntry{a.obs[i].Tag, mv})
+		}
+	}
+	if same {
+		m.obs = nobs
+	} else {
+		m.obs = nil
+	}
 }
